@@ -1417,7 +1417,7 @@ template<class V, class T> struct VecRun
           A.copiedSince = false;
           hs[b].copiedSince = true;
           break;
-        case V_SELF_ASSIGN: { V& r = *A.v; *A.v = r; break; }
+        case V_SELF_ASSIGN: { V& r = *A.v; *A.v = r; touched(A); break; }
         case V_ASSIGN_STD: { std::vector<T> t((size_t)o.n, x); *A.v = t; A.m = t; drop(A); break; }
         case V_MOVE_ASSIGN:
           if (a == b) break;
